@@ -25,7 +25,7 @@ Requirements for the change:
 
 Deliverables — write these files into {wt}/_seed/ :
    - patch.diff : output of `git -C {wt} diff -- xknx` (the change, relative to HEAD)
-   - demo.py (or demo_test.py) : a small standalone program that exits non-zero / fails WITH the change and exits 0 / passes WITHOUT it (check both; NEVER use `git stash` — the stash is shared with other worktrees of this repository and other people are working in them; instead do `git diff -- xknx > /tmp/my-{pid}.diff; git apply -R /tmp/my-{pid}.diff; ...; git apply /tmp/my-{pid}.diff`, and before finishing re-check that `git diff -- xknx` equals your patch.diff), demonstrating the violation of the property through the library's real API. Run it as `cd {wt} && /venv/bin/python _seed/demo.py`.
+   - demo.py (or demo_test.py) : a small standalone program that exits non-zero / fails WITH the change and exits 0 / passes WITHOUT it (check both; NEVER use `git stash` — the stash is shared with other worktrees of this repository and other people are working in them; instead do `git diff -- xknx > /tmp/my-{pid}.diff; git apply -R /tmp/my-{pid}.diff; ...; git apply /tmp/my-{pid}.diff`, and before finishing re-check that `git diff -- xknx` equals your patch.diff), demonstrating the violation of the property through the library's real API. Run it as `cd {wt} && /venv/bin/python _seed/demo.py`. IMPORTANT: a script under _seed/ has _seed on sys.path[0], not the worktree, so the demo must itself insert the worktree root at the front of sys.path (e.g. sys.path.insert(0, str(pathlib.Path(__file__).resolve().parents[1]))) and print xknx.__file__ to prove it uses the worktree copy.
    - meta.json : {{"property": "{pid}", "summary": "...what was changed...", "needs": "...what is needed for it to manifest...", "ran": ["...commands you ran and their result..."]}}
 Leave the change APPLIED in the worktree when you finish. If you can, produce a second, different change for the same property as _seed2/ (same three files; patch.diff relative to HEAD containing only the second change) — but one good one is better than two weak ones.
 
